@@ -4,7 +4,7 @@ Pixel ARRAYS of images (C02, round 2). An array is a function from a raw numpy m
 tag naming the root array, root time index, root voxel and component the entry was taken from.
 The numpy operations used by `Image.subregion / time_slice / time_interval / append` and `stack` are
 defined on such functions exactly as numpy defines them on indices (basic slicing adds the slice
-start; `a[..., i]` / `a[..., i, :]` insert `i` counted from the END of the index; `np.stack(axis=p)`
+start; the time axis is indexed at position `space_dim` (`a[(slice(None),)*space_dim + (i,)]`); `np.stack(axis=p)`
 dispatches on entry `p` of the index). `ImgA` pairs the metadata model (`Im.Img`) with the array.
 Core Lean only.
 -/
@@ -16,7 +16,7 @@ structure Tag where
   rid : Nat
   t : Nat
   vox : List Nat
-  comp : Nat
+  comp : List Nat
   deriving DecidableEq, Repr
 
 structure NArr where
@@ -39,51 +39,48 @@ def NArr.sliceLead (a : NArr) (ns : List (Nat × Nat)) : NArr :=
 
 def insertAt (l : List Nat) (p x : Nat) : List Nat := l.take p ++ x :: l.drop p
 
-/-- `a[..., i]` (q = 0) / `a[..., i, :]` (q = 1): index the axis that is `q` before the last one -/
-def NArr.indexFromEnd (a : NArr) (q i : Nat) : NArr :=
-  ⟨a.shape.eraseIdx (a.shape.length - 1 - q), fun idx => a.get (insertAt idx (idx.length - q) i)⟩
+/-- `a[:, …, :, i]` with `p` leading full slices: index axis `p` (the code indexes the time axis at position `space_dim`,
+whatever data axes follow) -/
+def NArr.indexAt (a : NArr) (p i : Nat) : NArr :=
+  ⟨a.shape.eraseIdx p, fun idx => a.get (insertAt idx p i)⟩
 
 def addAt : List Nat → Nat → Nat → List Nat
   | [], _, _ => []
   | x :: xs, 0, d => (x + d) :: xs
   | x :: xs, p + 1, d => x :: addAt xs p d
 
-/-- `a[..., r]` (q = 0) / `a[..., r, :]` (q = 1) with a normalised slice `r` -/
-def NArr.sliceFromEnd (a : NArr) (q : Nat) (r : Nat × Nat) : NArr :=
-  ⟨setAt a.shape (a.shape.length - 1 - q) (min (r.2 - r.1) (listGetD a.shape (a.shape.length - 1 - q) 0 - r.1)),
-   fun idx => a.get (addAt idx (idx.length - 1 - q) r.1)⟩
+/-- `a[:, …, :, r]` with a normalised slice `r` on axis `p` -/
+def NArr.sliceAt (a : NArr) (p : Nat) (r : Nat × Nat) : NArr :=
+  ⟨setAt a.shape p (min (r.2 - r.1) (listGetD a.shape p 0 - r.1)), fun idx => a.get (addAt idx p r.1)⟩
 
 /-- `np.stack(arrays, axis = p)` -/
 def stackAt (p : Nat) (l : List NArr) : NArr :=
   ⟨insertAt ((l.head?.map (·.shape)).getD []) p l.length,
    fun idx => match l[listGetD idx p 0]? with
      | some a => a.get (idx.eraseIdx p)
-     | none => ⟨0, 0, [], 0⟩⟩
+     | none => ⟨0, 0, [], []⟩⟩
 
 /-- image = metadata + pixel array -/
 structure ImgA where
   md : Img
   arr : NArr
 
-/-- 0 for scalar payload (time axis last), 1 for vector payload (component axis last) -/
-def ImgA.q (a : ImgA) : Nat := if a.md.scalar then 0 else 1
-
-/-- the raw index of (time index, voxel, component) under the image's payload layout -/
-def ImgA.rawIdx (a : ImgA) (t : Nat) (v : List Nat) (c : Nat) : List Nat :=
-  v ++ (if a.md.series then [t] else []) ++ (if a.md.scalar then [] else [c])
+/-- the raw index of (time index, voxel, component multi-index) — the component multi-index is `[]` for scalar payloads,
+`[c]` for vector payloads, `[c0, c1, …]` for tensor payloads; the time axis sits at position `space_dim` -/
+def ImgA.rawIdx (a : ImgA) (t : Nat) (v : List Nat) (c : List Nat) : List Nat :=
+  v ++ (if a.md.series then [t] else []) ++ c
 
 /-- logical view of the pixel array -/
-def ImgA.data (a : ImgA) (t : Nat) (v : List Nat) (c : Nat) : Tag := a.arr.get (a.rawIdx t v c)
+def ImgA.data (a : ImgA) (t : Nat) (v : List Nat) (c : List Nat) : Tag := a.arr.get (a.rawIdx t v c)
 
-/-- freshly constructed image on root array `rid` with `C` components (`C` ignored for scalar payload) -/
-def mkRootA (rid : Nat) (cs : CS) (series scalar : Bool) (T C : Nat) (time : Option (List (Option Rat)))
+/-- freshly constructed image on root array `rid` whose data axes have shape `cshape` (`[]` scalar, `[C]` vector, …) -/
+def mkRootA (rid : Nat) (cs : CS) (series scalar : Bool) (T : Nat) (cshape : List Nat) (time : Option (List (Option Rat)))
     (date : List (Option Int)) : Except Err ImgA := do
   let m ← mkRoot rid cs series scalar T time date
   let d := cs.dim.toNat
-  let shape := cs.shape ++ (if series then [T] else []) ++ (if scalar then [] else [C])
+  let shape := cs.shape ++ (if series then [T] else []) ++ cshape
   pure ⟨m, ⟨shape, fun idx =>
-    ⟨rid, if series then listGetD idx d 0 else 0, idx.take d,
-     if scalar then 0 else listGetD idx (if series then d + 1 else d) 0⟩⟩⟩
+    ⟨rid, if series then listGetD idx d 0 else 0, idx.take d, idx.drop (if series then d + 1 else d)⟩⟩⟩
 
 def ImgA.subSlices (a : ImgA) (sls : List PySlice) : Except Err ImgA := do
   let m ← a.md.subSlices sls
@@ -91,7 +88,7 @@ def ImgA.subSlices (a : ImgA) (sls : List PySlice) : Except Err ImgA := do
 
 /-- the time slabs `slice_image(im)` of `Image.append` -/
 def ImgA.slices (a : ImgA) : List NArr :=
-  if a.md.series then (List.range a.md.slabs.length).map fun i => a.arr.indexFromEnd a.q i else [a.arr]
+  if a.md.series then (List.range a.md.slabs.length).map fun i => a.arr.indexAt a.md.cs.dim.toNat i else [a.arr]
 
 def ImgA.step (a : ImgA) : Step → Except Err ImgA
   | .sub sls => a.subSlices sls
@@ -103,10 +100,10 @@ def ImgA.step (a : ImgA) : Step → Except Err ImgA
   | .tslice k => do
     let m ← a.md.timeSlice k
     let i ← pyIndex a.md.slabs.length k
-    pure ⟨m, a.arr.indexFromEnd a.q i⟩
+    pure ⟨m, a.arr.indexAt a.md.cs.dim.toNat i⟩
   | .tinterval s => do
     let m ← a.md.timeInterval s
-    pure ⟨m, a.arr.sliceFromEnd a.q (sliceIdx a.md.slabs.length s)⟩
+    pure ⟨m, a.arr.sliceAt a.md.cs.dim.toNat (sliceIdx a.md.slabs.length s)⟩
 
 /-- `Image.append`: `np.stack(slices(self) + slices(image), axis = space_dim)` -/
 def ImgA.append (a b : ImgA) (offset : Option Rat) : Except Err ImgA := do
